@@ -16,15 +16,38 @@ from rl import TensorDict, torch
 class CvrpAdapter(envcorr.Adapter):
     name = "cvrp"
 
-    def make_env(self, **kw):
+    def make_env(self, Q=1.0, **kw):
         from rl4co.envs.routing.cvrp.env import CVRPEnv
 
-        return CVRPEnv(generator_params=dict(num_loc=5), check_solution=False)
+        return CVRPEnv(generator_params=dict(num_loc=5, vehicle_capacity=Q), check_solution=False)
+
+    def variants(self):
+        # the (normalised) vehicle capacity is an env-level option: default 1.0 and two non-default values
+        return [{}, {}, {"Q": 0.5}, {"Q": 2.0}]
 
     def n_of(self, inst):
         return inst["n"]
 
-    def gen_instance(self, rng, n, kind="random"):
+    def gen_instance(self, rng, n, kind="random", Q=1.0):
+        inst = self._gen_instance(rng, n, kind)
+        inst["Q"] = Q
+        # magnitudes: a share of instances lives in a scaled and/or shifted box (still exact on the 2^-10 grid)
+        r = rng.random()
+        if r < 0.15:
+            k = rng.choice([2, 4, 8])
+            inst["pts"] = [(x * k, y * k) for (x, y) in inst["pts"]]
+            inst["box"] = f"x{k}"
+        elif r < 0.30:
+            sx, sy = rng.choice([(1000 * geom.GRID, 1000 * geom.GRID), (-3 * geom.GRID, 5 * geom.GRID), (100 * geom.GRID, 0)])
+            inst["pts"] = [(x + sx, y + sy) for (x, y) in inst["pts"]]
+            inst["box"] = f"shift({sx // geom.GRID},{sy // geom.GRID})"
+        return inst
+
+    def sizes(self, tier):
+        base = [1, 2, 3, 5, 8, 8, 13]
+        return base + ([30, 51] if tier == "quick" else [20, 30, 51, 101])
+
+    def _gen_instance(self, rng, n, kind="random"):
         C = rng.choice([4, 8, 16, 32])
         if kind == "boundary":
             # demands that can fill the vehicle exactly: halves, quarters, and complements
@@ -71,16 +94,17 @@ class CvrpAdapter(envcorr.Adapter):
         B = len(insts)
         locs = torch.tensor([geom.to_unit(i["pts"][1:]) for i in insts], dtype=torch.float32)
         depot = torch.tensor([geom.to_unit(i["pts"][:1])[0] for i in insts], dtype=torch.float32)
-        demand = torch.tensor([[d / i["C"] for d in i["demand"]] for i in insts], dtype=torch.float32)
+        demand = torch.tensor([[d * i.get("Q", 1.0) / i["C"] for d in i["demand"]] for i in insts], dtype=torch.float32)
         return TensorDict({"locs": locs, "depot": depot, "demand": demand}, batch_size=[B])
 
     def line(self, op, inst, actions):
-        n, C = inst["n"], inst["C"]
-        dem = [d * (rl.SCALE // C) for d in inst["demand"]]
+        n, C, Q = inst["n"], inst["C"], inst.get("Q", 1.0)
+        cap = int(Q * rl.SCALE)  # Q is a power of two: exact
+        dem = [d * (cap // C) for d in inst["demand"]]
         D = geom.D_ticks(inst["pts"])
         flat = [v for row in D for v in row]
-        tol = rl.tol_ticks(1.0)
-        return (f"cvrp.{op} {n} {rl.SCALE} {tol} | " + " ".join(map(str, dem)) + " | " + " ".join(map(str, flat))
+        tol = rl.tol_ticks(Q)
+        return (f"cvrp.{op} {n} {cap} {tol} | " + " ".join(map(str, dem)) + " | " + " ".join(map(str, flat))
                 + " | " + " ".join(map(str, actions)))
 
     def step_bound(self, inst):
